@@ -247,8 +247,7 @@ fn item() -> BoxedStrategy<Item> {
             Item { cmds, must_err: vec![], class: "transaction" }
         }),
         1 => select(vec![bs("UNSUBSCRIBE"), bs("PUNSUBSCRIBE")]).prop_map(|n| Item { cmds: vec![vec![n]], must_err: vec![], class: "unsubscribe-nothing" }),
-        // replies far larger than a socket buffer
-        1 => (select(vec![300_000usize, 2_000_000, 6_000_000]), any::<u8>()).prop_map(|(n, b)| Item { cmds: vec![vec![bs("SET"), bs("kbig"), vec![b | 1; n]], vec![bs("GET"), bs("kbig")], vec![bs("GET"), bs("kbig")], vec![bs("DEL"), bs("kbig")]], must_err: vec![], class: "large-reply" }),
+
     ]
     .boxed()
 }
@@ -261,7 +260,18 @@ fn case() -> BoxedStrategy<Case> {
         2 => Just(Seg::PerCommand),
         2 => Just(Seg::InsideHeaders),
     ];
-    (proptest::collection::vec(item(), 1..40), seg, select(vec![0u8, 0, 1, 3])).prop_map(|(items, seg, pause_ms)| Case { items, seg, pause_ms }).boxed()
+    // replies far larger than a socket buffer: in one case out of eight
+    let large = proptest::option::weighted(0.125, (select(vec![300_000usize, 2_000_000, 6_000_000]), any::<u8>(), any::<u16>()));
+    (proptest::collection::vec(item(), 1..40), seg, select(vec![0u8, 0, 1, 3]), large)
+        .prop_map(|(mut items, seg, pause_ms, large)| {
+            if let Some((n, b, pos)) = large {
+                let it = Item { cmds: vec![vec![bs("SET"), bs("kbig"), vec![b | 1; n]], vec![bs("GET"), bs("kbig")], vec![bs("GET"), bs("kbig")], vec![bs("DEL"), bs("kbig")]], must_err: vec![], class: "large-reply" };
+                let at = (pos as usize * (items.len() + 1)) >> 16;
+                items.insert(at, it);
+            }
+            Case { items, seg, pause_ms }
+        })
+        .boxed()
 }
 
 fn preamble() -> Vec<Cmd> {
